@@ -136,6 +136,8 @@ def run(desc, ctx):
         uid = 200 + i
         # the reply carries pattern + filler + uid; the filler decides which pending pattern is its longest prefix
         reply = bytes(pat) + bytes([rnd.randrange(1, 250) for _ in range(rnd.randint(0, 2))]) + bytes([uid])
+        if rnd.random() < 0.2:
+            reply = bytes(pat)        # the shortest packet that matches: nothing after the expected bytes
         reqs.append({'uid': uid, 'chan': chan, 'pattern': pat, 'T': T, 'at': round(rnd.choice((0.0, 0.0, 0.01, 0.07, 0.33)), 3),
                      'lose_tx': rnd.choice((0, 0, 1, 2)), 'lose_reply': rnd.choice((0, 0, 1)), 'delay': delay,
                      'reply': reply})
